@@ -552,7 +552,6 @@ pub fn lane_boundary(ctx: &mut Ctx) {
                             None,
                             json!({"pending_after": pending.len()}),
                         );
-                        ok = false;
                         break;
                     }
                 }
